@@ -57,6 +57,10 @@ func c08Reader(kind int, data []byte, chunks []int) (io.Reader, *vReader) {
 		r := newVReader(data)
 		r.chunks = chunks
 		return vBufioLess{r}, r
+	case 3: // bufio with a buffer smaller than a packet
+		r := newVReader(data)
+		r.chunks = chunks
+		return bufio.NewReaderSize(vBufioLess{r}, 64), r
 	default: // bufio over a fragmenting reader
 		r := newVReader(data)
 		r.chunks = chunks
@@ -193,4 +197,55 @@ func HarnessC08Short(kind, size, extra int) {
 		vassertK("C08.short.same", "F16", f16, sameSeq(ref, got))
 	}
 	vreach("C08.short.end")
+}
+
+// drainEvents keeps calling NextData after errors (at most max calls): delivered data, number of errors, and whether the
+// end of the stream was reached
+func drainEvents(r io.Reader, size, max int) (out []*DemuxerData, nerr int, ended bool) {
+	var dmx *Demuxer
+	if size > 0 {
+		dmx = NewDemuxer(vCtx{}, r, DemuxerOptPacketSize(size))
+	} else {
+		dmx = NewDemuxer(vCtx{}, r)
+	}
+	for k := 0; k < max; k++ {
+		d, err := dmx.NextData()
+		if err == ErrNoMorePackets {
+			return out, nerr, true
+		}
+		if err != nil {
+			nerr++
+			continue
+		}
+		out = append(out, d)
+	}
+	return out, nerr, false
+}
+
+// HarnessC08Bad: a stream with one damaged packet (sync byte destroyed, or an adaptation_field_length pointing beyond
+// the packet) at an arbitrary position: data, number of errors and end of stream are the same for every reader kind
+func HarnessC08Bad(kind, how int) {
+	s := c08Stream()
+	i := vrange(0, len(s.pkts)-1)
+	var data []byte
+	for k, p := range s.pkts {
+		q := append([]byte{}, p...)
+		if k == i {
+			if how == 0 {
+				q[0] = 0x00
+			} else {
+				q[3] |= 0x20 // adaptation field present ...
+				q[4] = 0xf0  // ... and longer than the packet
+			}
+		}
+		data = append(data, q...)
+	}
+	ref, refErr, refEnded := drainEvents(newVReader(data), 188, 14)
+	vassert("C08.bad.ref", refEnded)
+	r, _ := c08Reader(kind, data, nil)
+	got, nerr, ended := drainEvents(r, 188, 14)
+	vassert("C08.bad.ended", ended)
+	vassert("C08.bad.errors", nerr == refErr)
+	vassert("C08.bad.same", sameSeq(ref, got))
+	vreach("C08.bad.end")
 }
